@@ -11,8 +11,11 @@ R17.1t  the factory tables themselves: every row resolves to a class which
 R17.2   agent / tmgr / pmgr / session configs: component kinds, tmgr scheduler
         name, and the bridges the configured components register
 R17.3   `_prepare_pilot`: job sinks and agent sinks are fed by the same values;
-        node computation (divisors, max, ceil); agent side reads the keys
-        written
+        node computation (divisors); agent side reads the keys written
+R17.4   client divisor == usable cores / gpus per node the agent derives
+R17.5   rounding direction on the def-use chain from each division
+        `requested amount / usable per node` to the node count handed to the
+        agent: only upward rounding, kinds combined by max, whole nodes
 
 Nothing of /repo is imported or executed: JSON files are read as text, the
 python sources through the program model.
@@ -1644,10 +1647,10 @@ AGENT_KEYS = {'requested_nodes': 'nodes', 'backup_nodes': 'backup_nodes',
 def r17_3(prog, rep, rid='R17.3'):
     rep.rule(rid, '_prepare_pilot: jd.node_count is the sum of the two node '
              'figures the agent receives; total cpu/gpu counts and the agent '
-             'cores/gpus are one definition; the node count is the ceiling of '
-             'the larger of cores/avail-cores and gpus/avail-gpus, the '
-             'divisors depending on SMT and the blocked lists; the agent '
-             'reads the keys written', minimum=12)
+             'cores/gpus are one definition; the divisors of the node '
+             'computation depend on SMT and the blocked lists; the agent '
+             'reads the keys written (rounding and combination: R17.5)',
+             minimum=10)
     f = see_through(prog, prog.method(PMGRL[0], PMGRL[1], '_prepare_pilot'))
     rep.saw(f)
     g = cfg_of(f)
@@ -1699,7 +1702,6 @@ def r17_3(prog, rep, rid='R17.3'):
     smap = I.stmt_node_map(g)
     ev = SymEval(f)
     nd = node_divisions(f, ev, smap)
-    core_div, gpu_div = [nd['cores'][0]], [nd['gpus'][0]]
     for what, needs in (('cores', ('smt', 'blocked_cores')),
                         ('gpus', ('blocked_gpus',))):
         div, dnode, D = nd[what]
@@ -1738,83 +1740,6 @@ def r17_3(prog, rep, rid='R17.3'):
                                'blocked_gpus': 'platform with 1 blocked GPU '
                                'of 2, 4 GPUs requested: 2 nodes requested, 4 '
                                'needed'}[need])
-    # gpus are combined with max()
-    gd = gpu_div[0]
-    gn = smap.get(id(gd))
-    enclosing = [c for c in calls_in(gn.ast) if any(x is gd for x in walk(c))] \
-        if gn is not None else []
-    names = {call_name(c) for c in enclosing}
-    if 'max' in names:
-        mx = [c for c in enclosing if call_name(c) == 'max'][0]
-        other = [a for a in mx.args if not any(x is gd for x in walk(a))]
-        okm = bool(other) and any(
-            'rcfg.cores_per_node' in d.expr_depends(a) or
-            "pilot['description']" in d.expr_depends(a) for a in other)
-        rep.check(okm, rid, f, 'node count is max(gpus / avail gpus, cores / '
-                  'avail cores)', construct=mx,
-                  message='the GPU-driven node count `%s` is not combined '
-                  'with the core-driven one' % short(mx), loc=f.loc(mx),
-                  history='cores=1000, gpus=1 on a 10-core/1-GPU platform: 1 '
-                  'node requested, 100 needed')
-    elif names & {'min'} or not enclosing:
-        rep.bad(rid, f, gn.ast if gn is not None else gd,
-                'the GPU-driven node count `%s` %s: the job does not cover '
-                'both the requested cores and the requested GPUs'
-                % (short(gd), 'is combined by min()' if 'min' in names else
-                   'replaces the core-driven one'), f.loc(gd),
-                history='cores=1000, gpus=1 on a 10-core/1-GPU platform: 1 '
-                'node requested, 100 needed')
-    else:
-        raise AnalysisError('UNRECOGNISED-IDIOM %s: %s' % (f.where,
-                                                          short(gn.ast)))
-    # whole nodes: the computed value is rounded up before it reaches the sinks
-    nvar = None
-    for x in walk(v1):
-        if isinstance(x, ast.Name):
-            nvar = x.id
-    if not isinstance(v1, ast.Name):
-        raise AnalysisError("UNRECOGNISED-IDIOM %s: agent_cfg['nodes'] = %s"
-                            % (f.where, short(v1)))
-    div_nodes = {smap[id(x)].id for x in (core_div[0], gpu_div[0])
-                 if id(x) in smap}
-    # definitions of nvar reaching the agent sink: each is either upstream of
-    # the divisions (user supplied node count) or a ceil() of them
-    for dn in sorted(rd.reaching(n1.id, nvar)):
-        a = g.nodes[dn].ast
-        if g.nodes[dn].kind != 'stmt' or not isinstance(a, ast.Assign):
-            raise AnalysisError('UNRECOGNISED-IDIOM %s: %s' % (f.where,
-                                                              short(a)))
-        downstream = any(dn in g.reachable(x) for x in div_nodes)
-        if not downstream or dn in div_nodes:
-            if dn in div_nodes:
-                rep.bad(rid, f, a, 'the fractional node count `%s` reaches '
-                        'the job description without being rounded up'
-                        % short(a), f.loc(a),
-                        history='cores=9 on an 8-core platform: node_count '
-                        '1.125')
-            continue
-        v = a.value
-        inner = v
-        while isinstance(inner, ast.Call) and call_name(inner) == 'int' and \
-                inner.args:
-            inner = inner.args[0]
-        cn = call_name(inner) if isinstance(inner, ast.Call) else ''
-        if cn in ('math.ceil', 'ceil', 'm.ceil'):
-            rep.ok(rid, f, 'computed node count is rounded up: %s' % short(a),
-                   f.loc(a))
-        elif cn in ('math.floor', 'floor', 'round', 'int', 'math.trunc') or \
-                isinstance(inner, ast.BinOp) and \
-                isinstance(inner.op, ast.FloorDiv) or \
-                isinstance(v, ast.Call) and call_name(v) == 'int':
-            rep.bad(rid, f, a, 'the computed node count is rounded with `%s`, '
-                    'not up: the job requests fewer nodes than needed to '
-                    'cover the requested cores/GPUs' % short(v), f.loc(a),
-                    history='cores=9 on an 8-core platform: 1 node requested, '
-                    '2 needed')
-        else:
-            raise AnalysisError('UNRECOGNISED-IDIOM %s: node count rounding '
-                                '%s' % (f.where, short(a)))
-
     # agent side reads what was written
     written = set()
     for n in g.stmt_nodes():
@@ -2200,6 +2125,703 @@ def r17_4(prog, rep, rid='R17.4'):
 
 
 # ------------------------------------------------------------------------------
+# R17.5   rounding direction of the node computation
+#
+# Abstract value of an expression: a set of *alternatives* (one per combination
+# of reaching definitions; path insensitive), each alternative mapping a kind
+# ('cores', 'gpus') to the relation between the value and the real quotient
+# q = requested amount / usable amount per node of that kind:
+#
+#   'q'     the value is >= q and possibly fractional   (a / b, max(.., a / b))
+#   'ceil'  the value is a whole number >= q            (ceil(q) and idioms)
+#   'low'   the value may be smaller than q             (floor, int, round,
+#           min with something else, amount of the other kind divided)
+#   'adj'   arithmetic the recogniser does not know     (=> UNRECOGNISED-IDIOM)
+#
+# A kind which is absent from an alternative did not flow into it.
+#
+_KIND_TXT  = {'cores': 'cores', 'gpus': 'GPUs'}
+_RANK      = {'low': 0, 'q': 1, 'ceil': 2}
+_NEUTRAL   = frozenset([()])
+_CEIL_FN   = ('ceil',)
+_FLOOR_FN  = ('floor', 'trunc')
+_MAX_ALTS  = 128
+
+
+def _amount_kind(P):
+    """'cores' | 'gpus' if the polynomial is exactly one requested amount
+    (an opaque read of the key 'cores' / 'gpus')"""
+    if len(P.t) != 1:
+        return None
+    (k, c), = P.t.items()
+    if c != 1 or len(k) != 1 or k[0][0] != 'expr':
+        return None
+    try:
+        e = ast.parse(k[0][1], mode='eval').body
+    except SyntaxError:
+        return None
+    key = None
+    if isinstance(e, ast.Subscript) and isinstance(e.slice, ast.Constant):
+        key = e.slice.value
+    elif isinstance(e, ast.Call) and isinstance(e.func, ast.Attribute) and \
+            e.func.attr == 'get' and e.args and \
+            isinstance(e.args[0], ast.Constant):
+        key = e.args[0].value
+    elif isinstance(e, ast.Attribute):
+        key = e.attr
+    return key if key in _KIND_TXT else None
+
+
+def _strip_calls(e, names):
+    while isinstance(e, ast.Call) and call_name(e) in names and \
+            len(e.args) == 1 and not e.keywords:
+        e = e.args[0]
+    return e
+
+
+def _is_zero(e):
+    return isinstance(e, ast.Constant) and not isinstance(e.value, bool) and \
+        isinstance(e.value, (int, float)) and e.value == 0
+
+
+def _is_one(e):
+    return isinstance(e, ast.Constant) and not isinstance(e.value, bool) and \
+        isinstance(e.value, int) and e.value == 1
+
+
+class Cover:
+
+    def __init__(self, f, g, rd, ev, nd):
+        self.f, self.g, self.rd, self.ev = f, g, rd, ev
+        self.div     = {id(nd[k][0]): k for k in nd}
+        self.sites   = []            # [(kind, ast node, reason)]
+        self.visited = set()         # kinds whose division was evaluated
+        self._memo   = {}
+        self._stack  = set()
+
+    # -- alternatives ----------------------------------------------------------
+    @staticmethod
+    def _alt(d):
+        return tuple(sorted((k, s, i) for k, (s, i) in d.items()))
+
+    @staticmethod
+    def _dict(alt):
+        return {k: (s, i) for k, s, i in alt}
+
+    def _site(self, kind, node, reason):
+        for i, x in enumerate(self.sites):
+            if x[0] == kind and x[1] is node and x[2] == reason:
+                return i
+        self.sites.append((kind, node, reason))
+        return len(self.sites) - 1
+
+    def _cap(self, alts, e):
+        if len(alts) > _MAX_ALTS:
+            raise AnalysisError('UNRECOGNISED-IDIOM %s: too many alternative '
+                                'definitions flow into `%s`'
+                                % (self.f.where, short(e)))
+        return frozenset(alts)
+
+    def _map(self, alts, fn):
+        """fn(kind, state, site) -> (state, site) | None (kind dropped)"""
+        out = set()
+        for a in alts:
+            d = {}
+            for k, s, i in a:
+                r = fn(k, s, i)
+                if r is not None:
+                    d[k] = r
+            out.add(self._alt(d))
+        return frozenset(out)
+
+    def _adj(self, alts):
+        return self._map(alts, lambda k, s, i: ('adj', -1))
+
+    @staticmethod
+    def kinds(alts):
+        return {k for a in alts for k, s, i in a}
+
+    def _product(self, lists, e):
+        prod = [()]
+        for alts in lists:
+            prod = [p + (a,) for p in prod for a in alts]
+            if len(prod) > 4 * _MAX_ALTS:
+                raise AnalysisError('UNRECOGNISED-IDIOM %s: too many '
+                                    'alternatives in `%s`' % (self.f.where,
+                                                              short(e)))
+        return prod
+
+    def _extreme(self, lists, e, is_max):
+        out = set()
+        for combo in self._product(lists, e):
+            ds = [self._dict(a) for a in combo]
+            res = {}
+            for k in set().union(*[set(d) for d in ds]) if ds else ():
+                have = [d[k] for d in ds if k in d]
+                if any(s == 'adj' for s, i in have):
+                    res[k] = ('adj', -1)
+                elif is_max:
+                    res[k] = max(have, key=lambda x: _RANK[x[0]])
+                elif len(have) == len(ds):
+                    res[k] = min(have, key=lambda x: _RANK[x[0]])
+                else:
+                    res[k] = ('low', self._site(k, e, 'min'))
+            out.add(self._alt(res))
+        return self._cap(out, e)
+
+    # -- expressions -----------------------------------------------------------
+    def expr(self, e, nid, depth=0):
+        if depth > 60:
+            raise AnalysisError('UNRECOGNISED-IDIOM %s: cyclic definition in '
+                                'the node computation (`%s`)'
+                                % (self.f.where, short(e)))
+        if isinstance(e, ast.Constant):
+            return _NEUTRAL
+        if isinstance(e, ast.Name):
+            return self.name(e.id, nid, depth + 1)
+        if isinstance(e, ast.BinOp):
+            return self.binop(e, nid, depth + 1)
+        if isinstance(e, ast.UnaryOp):
+            if isinstance(e.op, ast.UAdd):
+                return self.expr(e.operand, nid, depth + 1)
+            if isinstance(e.op, ast.USub):
+                r = self._neg_floordiv(e, nid)
+                if r is not None:
+                    return r
+            return self.default(e, nid, depth + 1)
+        if isinstance(e, ast.Call):
+            return self.call(e, nid, depth + 1)
+        if isinstance(e, ast.IfExp):
+            return self.ifexp(e, nid, depth + 1)
+        if isinstance(e, ast.BoolOp):
+            out = set()
+            for v in e.values:
+                out |= self.expr(v, nid, depth + 1)
+            return self._cap(out, e)
+        if isinstance(e, ast.NamedExpr):
+            return self.expr(e.value, nid, depth + 1)
+        return self.default(e, nid, depth + 1)
+
+    def default(self, e, nid, depth):
+        """anything else: if a node figure flows in, the result is unknown"""
+        ks = set()
+        for c in ast.iter_child_nodes(e):
+            if isinstance(c, ast.expr):
+                ks |= self.kinds(self.expr(c, nid, depth + 1))
+        if not ks:
+            return _NEUTRAL
+        return frozenset([self._alt({k: ('adj', -1) for k in ks})])
+
+    def _polys(self, div, nid):
+        L = _strip_calls(div.left, ('float',))
+        return self.ev.poly(L, nid), self.ev.poly(div.right, nid)
+
+    def division(self, e, nid):
+        k = self.div[id(e)]
+        self.visited.add(k)
+        PL, PR = self._polys(e, nid)
+        ak = _amount_kind(PL)
+        if ak is not None and ak != k:
+            return frozenset([self._alt({k: ('low', self._site(
+                k, e, 'mix:' + ak))})])
+        if isinstance(e.op, ast.Div):
+            st = ('q', -1) if ak == k else ('adj', -1)
+        elif ak == k:
+            st = ('low', self._site(k, e, 'floordiv'))
+        elif _amount_kind(PL - PR + Poly.const(1)) == k:
+            st = ('ceil', -1)                       # (a + b - 1) // b
+        else:
+            st = ('adj', -1)
+        return frozenset([self._alt({k: st})])
+
+    def _neg_floordiv(self, e, nid):
+        """-(-a // b)   and   -(a // -b)"""
+        d = e.operand
+        if not (isinstance(d, ast.BinOp) and isinstance(d.op, ast.FloorDiv)
+                and id(d) in self.div):
+            return None
+        k = self.div[id(d)]
+        PL, PR = self._polys(d, nid)
+        neg_r = isinstance(d.right, ast.UnaryOp) and \
+            isinstance(d.right.op, ast.USub)
+        if _amount_kind(-PL) == k and not neg_r or \
+                _amount_kind(PL) == k and neg_r:
+            self.visited.add(k)
+            return frozenset([self._alt({k: ('ceil', -1)})])
+        return None
+
+    def _floor_of(self, e):
+        """the division BinOp if e is `a // b` or int(a / b) / floor(a / b)"""
+        if isinstance(e, ast.BinOp) and id(e) in self.div and \
+                isinstance(e.op, ast.FloorDiv):
+            return e
+        if isinstance(e, ast.Call) and len(e.args) == 1 and not e.keywords and \
+                (call_name(e) == 'int' or
+                 call_name(e).split('.')[-1] in _FLOOR_FN):
+            x = e.args[0]
+            if isinstance(x, ast.BinOp) and id(x) in self.div and \
+                    isinstance(x.op, ast.Div):
+                return x
+        return None
+
+    def _rem_truth(self, t, PL, PR, nid):
+        """+1 if t is true iff the remainder a % b is non-zero, -1 if it is
+        true iff the remainder is zero, 0 if unknown (a, b: the operands of the
+        division with polynomials PL, PR)"""
+        def is_rem(x):
+            return isinstance(x, ast.BinOp) and isinstance(x.op, ast.Mod) and \
+                self.ev.poly(_strip_calls(x.left, ('float',)), nid) == PL and \
+                self.ev.poly(x.right, nid) == PR
+
+        if isinstance(t, ast.Call) and call_name(t) == 'bool' and \
+                len(t.args) == 1 and not t.keywords:
+            t = t.args[0]
+        if is_rem(t):
+            return 1
+        if isinstance(t, ast.UnaryOp) and isinstance(t.op, ast.Not):
+            return -self._rem_truth(t.operand, PL, PR, nid)
+        if isinstance(t, ast.Compare) and len(t.ops) == 1:
+            l, op, r = t.left, t.ops[0], t.comparators[0]
+            if is_rem(l) and _is_zero(r):
+                if isinstance(op, (ast.Gt, ast.NotEq)):
+                    return 1
+                if isinstance(op, ast.Eq):
+                    return -1
+            if _is_zero(l) and is_rem(r):
+                if isinstance(op, (ast.Lt, ast.NotEq)):
+                    return 1
+                if isinstance(op, ast.Eq):
+                    return -1
+        return 0
+
+    def _rem_indicator(self, e, PL, PR, nid):
+        """e is 1 when a % b is non-zero and 0 otherwise"""
+        e = _strip_calls(e, ('int',))
+        if isinstance(e, ast.Call) and call_name(e) == 'bool' or \
+                isinstance(e, (ast.Compare, ast.UnaryOp)):
+            return self._rem_truth(e, PL, PR, nid) == 1
+        if isinstance(e, ast.IfExp):
+            z = self._rem_truth(e.test, PL, PR, nid)
+            return z == 1 and _is_one(e.body) and _is_zero(e.orelse) or \
+                z == -1 and _is_zero(e.body) and _is_one(e.orelse)
+        return False
+
+    # -- floor, then one more if there is a remainder (statement level) --------
+    def _floor_def(self, name, d):
+        """(division BinOp, kind, PL, PR) if definition d is `name = a // b`
+        (or int(a / b)) of a requested amount by its usable amount per node"""
+        n = self.g.nodes[d]
+        a = n.ast
+        if n.kind != 'stmt' or not isinstance(a, ast.Assign) or \
+                len(a.targets) != 1 or \
+                not isinstance(a.targets[0], ast.Name) or \
+                a.targets[0].id != name:
+            return None
+        dv = self._floor_of(a.value)
+        if dv is None:
+            return None
+        k = self.div[id(dv)]
+        PL, PR = self._polys(dv, d)
+        if _amount_kind(PL) != k:
+            return None
+        return dv, k, PL, PR
+
+    def _rem_edges(self, PL, PR):
+        """([edges taken when the remainder is non-zero], [.. is zero])"""
+        nz, z = [], []
+        for t in self.g.nodes:
+            if t.kind != 'test' or t.ast is None or not any(
+                    isinstance(x, ast.BinOp) and isinstance(x.op, ast.Mod)
+                    for x in walk(t.ast)):
+                continue
+            r = self._rem_truth(t.ast, PL, PR, t.id)
+            if r:
+                nz.append((t.id, 'T' if r == 1 else 'F'))
+                z.append((t.id, 'F' if r == 1 else 'T'))
+        return nz, z
+
+    def _incremented_floor(self, name, d):
+        """kind if definition d is `name += 1` executed only when the floor
+        division which defines `name` there leaves a remainder"""
+        a = self.g.nodes[d].ast
+        if not (isinstance(a, ast.AugAssign) and isinstance(a.op, ast.Add)
+                and _is_one(a.value)):
+            return None
+        prev = self.rd.reaching(d, name)
+        if len(prev) != 1:
+            return None
+        fd = self._floor_def(name, next(iter(prev)))
+        if fd is None:
+            return None
+        nz, z = self._rem_edges(fd[2], fd[3])
+        if not set(nz) & set(self.ev.guards(d)):
+            return None
+        self.visited.add(fd[1])
+        return fd[1]
+
+    def _floor_when_exact(self, name, d, nid):
+        """kind if definition d is a floor division which reaches node nid
+        only over remainder-is-zero edges (floor == ceil there)"""
+        fd = self._floor_def(name, d)
+        if fd is None:
+            return None
+        nz, z = self._rem_edges(fd[2], fd[3])
+        if not z:
+            return None
+        g = self.g
+        others = self.rd.by_name[name]
+        start = [x.dst for x in g.succ[d] if x.dst not in others or
+                 x.dst == nid]
+        if nid not in g.reachable(start, skip_nodes=others - {nid}):
+            return None
+        if nid in g.reachable(start, skip_nodes=others - {nid}, skip_edges=z):
+            return None
+        return fd[1]
+
+    def binop(self, e, nid, depth):
+        if id(e) in self.div:
+            return self.division(e, nid)
+        if isinstance(e.op, ast.Add):
+            for x, y in ((e.left, e.right), (e.right, e.left)):
+                d = self._floor_of(x)
+                if d is None:
+                    continue
+                k = self.div[id(d)]
+                PL, PR = self._polys(d, nid)
+                # (a - 1) // b + 1
+                if _is_one(y) and isinstance(d.op, ast.FloorDiv) and \
+                        _amount_kind(PL + Poly.const(1)) == k:
+                    self.visited.add(k)
+                    return frozenset([self._alt({k: ('ceil', -1)})])
+                # a // b + (a % b > 0)
+                if _amount_kind(PL) == k and \
+                        self._rem_indicator(y, PL, PR, nid):
+                    self.visited.add(k)
+                    return frozenset([self._alt({k: ('ceil', -1)})])
+            if _is_zero(e.right):
+                return self.expr(e.left, nid, depth)
+            if _is_zero(e.left):
+                return self.expr(e.right, nid, depth)
+        return self.default(e, nid, depth)
+
+    def call(self, e, nid, depth):
+        cn = call_name(e)
+        last = cn.split('.')[-1]
+        plain = not e.keywords and not any(isinstance(a, ast.Starred)
+                                           for a in e.args)
+        if plain and len(e.args) == 1 and last in _CEIL_FN:
+            return self._map(self.expr(e.args[0], nid, depth),
+                             lambda k, s, i: ('ceil', -1) if s == 'q'
+                             else (s, i))
+        if plain and len(e.args) == 1 and (last in _FLOOR_FN or
+                                           cn in ('int', 'round')):
+            return self._map(self.expr(e.args[0], nid, depth),
+                             lambda k, s, i: ('low', self._site(k, e, cn))
+                             if s == 'q' else (s, i))
+        if plain and len(e.args) == 1 and cn in ('float', 'abs'):
+            return self.expr(e.args[0], nid, depth)
+        if plain and cn in ('max', 'min') and e.args:
+            args = list(e.args)
+            if len(args) == 1 and isinstance(args[0], (ast.List, ast.Tuple)) \
+                    and not any(isinstance(a, ast.Starred)
+                                for a in args[0].elts):
+                args = list(args[0].elts)
+            if len(args) >= 2:
+                return self._extreme([self.expr(a, nid, depth) for a in args],
+                                     e, cn == 'max')
+        return self.default(e, nid, depth)
+
+    def ifexp(self, e, nid, depth):
+        tk = set()
+        for c in walk(e.test):
+            if isinstance(c, ast.Compare):
+                tk |= self.kinds(self.default(c, nid, depth))
+        body = self.expr(e.body,   nid, depth)
+        orel = self.expr(e.orelse, nid, depth)
+        if not tk:
+            return self._cap(set(body) | set(orel), e)
+        # a hand written max / min:   x if x > y else y
+        t = e.test
+        if isinstance(t, ast.Compare) and len(t.ops) == 1:
+            x, y = unparse(t.left), unparse(t.comparators[0])
+            b, o = unparse(e.body), unparse(e.orelse)
+            gt = isinstance(t.ops[0], (ast.Gt, ast.GtE))
+            lt = isinstance(t.ops[0], (ast.Lt, ast.LtE))
+            if (gt or lt) and {x, y} == {b, o} and x != y:
+                is_max = (b == x) == gt
+                return self._extreme([body, orel], e, is_max)
+        return self._adj(set(body) | set(orel))
+
+    # -- names -----------------------------------------------------------------
+    def _only_when_zero(self, d, name, nid):
+        """definition d of `name` reaches node nid only over the false edge of
+        a truth test of `name` itself: the value which arrives is zero"""
+        g = self.g
+        se = [(t.id, 'F') for t in g.nodes if t.kind == 'test' and
+              isinstance(t.ast, ast.Name) and t.ast.id == name]
+        if not se:
+            return False
+        others = self.rd.by_name[name]
+        inner = g.reachable([x.dst for x in g.succ[d]
+                             if x.dst not in others or x.dst == nid],
+                            skip_nodes=others - {nid}, skip_edges=se)
+        return nid not in inner
+
+    def _compared(self, d, nid, depth):
+        """kinds of the node figures compared in a test which decides whether
+        definition d is executed"""
+        ks = set()
+        for tid, lab in self.ev.guards(d):
+            t = self.g.nodes[tid].ast
+            if isinstance(t, ast.Compare):
+                ks |= self.kinds(self.default(t, tid, depth + 1))
+        return ks
+
+    def _selection(self, name, defs, nid, depth):
+        """a hand written max / min at statement level:
+
+            if l > r: x = l          x = l
+            else    : x = r          if r > x: x = r
+
+        -> (alternatives of max/min(l, r), definitions not taking part)"""
+        g, ev = self.g, self.ev
+        base = ev.guards(nid)
+        rel = {d: [(t, lab) for t, lab in ev.guards(d) - base
+                   if isinstance(g.nodes[t].ast, ast.Compare) and
+                   self.kinds(self.default(g.nodes[t].ast, t, depth + 1))]
+               for d in defs}
+        tests = {t for d in defs for t, lab in rel[d]}
+        if len(tests) != 1:
+            return None
+        tid = next(iter(tests))
+        t = g.nodes[tid].ast
+        if len(t.ops) != 1 or not isinstance(t.ops[0], (ast.Gt, ast.GtE,
+                                                       ast.Lt, ast.LtE)):
+            return None
+        l, r = t.left, t.comparators[0]
+        lt, rt = unparse(l), unparse(r)
+        if lt == rt:
+            return None
+        gt = isinstance(t.ops[0], (ast.Gt, ast.GtE))
+        verdicts, rest = set(), set()
+        for d in defs:
+            if rel[d]:
+                a = g.nodes[d].ast
+                if len(rel[d]) != 1 or g.nodes[d].kind != 'stmt' or \
+                        not isinstance(a, ast.Assign) or \
+                        len(a.targets) != 1 or \
+                        not isinstance(a.targets[0], ast.Name):
+                    return None
+                vt = unparse(a.value)
+                if vt not in (lt, rt):
+                    return None
+                for x in walk(a.value):
+                    if isinstance(x, ast.Name) and \
+                            self.rd.reaching(d, x.id) != \
+                            self.rd.reaching(tid, x.id):
+                        return None
+                greater = lt if gt == (rel[d][0][1] == 'T') else rt
+                verdicts.add(vt == greater)
+                continue
+            others = self.rd.by_name[name]
+            start = [x.dst for x in g.succ[d]
+                     if x.dst not in others or x.dst == nid]
+            around = g.reachable(start, skip_nodes=(others - {nid}) | {tid})
+            if nid in around:
+                if tid in g.reachable(start, skip_nodes=others - {nid}) and \
+                        nid in g.reachable(
+                            [x.dst for x in g.succ[tid]
+                             if x.dst not in others or x.dst == nid],
+                            skip_nodes=others - {nid}):
+                    return None          # reaches the use both ways
+                rest.add(d)
+            elif name not in (lt, rt) or \
+                    self.rd.reaching(tid, name) != frozenset([d]):
+                return None
+        if len(verdicts) != 1:
+            return None
+        alts = self._extreme([self.expr(l, tid, depth + 1),
+                              self.expr(r, tid, depth + 1)], t,
+                             verdicts.pop())
+        return alts, frozenset(rest)
+
+    def name(self, name, nid, depth):
+        defs = self.rd.reaching(nid, name)
+        if not defs:
+            return _NEUTRAL
+        key = (name, defs)
+        if key in self._memo:
+            return self._memo[key]
+        if key in self._stack:
+            raise AnalysisError('UNRECOGNISED-IDIOM %s: %r is defined in '
+                                'terms of itself around a loop'
+                                % (self.f.where, name))
+        self._stack.add(key)
+        out = set()
+        sel = self._selection(name, defs, nid, depth) if len(defs) > 1 \
+            else None
+        if sel is not None:
+            out |= sel[0]
+            defs = sel[1]
+        for d in sorted(defs):
+            alts = self._def(name, d, depth)
+            if len(defs) > 1 and self.kinds(alts):
+                k = self._floor_when_exact(name, d, nid)
+                if k is not None:
+                    alts = frozenset([self._alt({k: ('ceil', -1)})])
+                if self._only_when_zero(d, name, nid):
+                    alts = self._map(alts, lambda k, s, i: None if s == 'q'
+                                     else (s, i))
+                if self._compared(d, nid, depth):
+                    # a hand written selection between node figures
+                    alts = self._adj(alts)
+            out |= alts
+        self._stack.discard(key)
+        self._memo[key] = self._cap(out, ast.Name(id=name, ctx=ast.Load()))
+        return self._memo[key]
+
+    def _def(self, name, d, depth):
+        n = self.g.nodes[d]
+        a = n.ast
+        if n.kind != 'stmt' or a is None:
+            return _NEUTRAL                  # loop / with / handler variable
+        if isinstance(a, ast.AnnAssign) and a.value is not None and \
+                isinstance(a.target, ast.Name):
+            return self.expr(a.value, d, depth)
+        if isinstance(a, ast.AugAssign) and isinstance(a.target, ast.Name):
+            k = self._incremented_floor(name, d)
+            if k is not None:
+                return frozenset([self._alt({k: ('ceil', -1)})])
+            syn = ast.BinOp(left=ast.Name(id=name, ctx=ast.Load()), op=a.op,
+                            right=a.value)
+            ast.copy_location(syn, a)
+            ast.fix_missing_locations(syn)
+            return self.binop(syn, d, depth)
+        if isinstance(a, ast.Assign):
+            for t in a.targets:
+                if isinstance(t, ast.Name) and t.id == name:
+                    return self.expr(a.value, d, depth)
+            for t in a.targets:
+                if isinstance(t, (ast.Tuple, ast.List)) and \
+                        isinstance(a.value, (ast.Tuple, ast.List)) and \
+                        len(t.elts) == len(a.value.elts):
+                    for x, v in zip(t.elts, a.value.elts):
+                        if isinstance(x, ast.Name) and x.id == name:
+                            return self.expr(v, d, depth)
+            return self._adj(self.default(a.value, d, depth))
+        for x in walk(a):
+            if isinstance(x, ast.NamedExpr) and \
+                    isinstance(x.target, ast.Name) and x.target.id == name:
+                return self.expr(x.value, d, depth)
+        return _NEUTRAL
+
+
+def r17_5(prog, rep, rid='R17.5'):
+    rep.rule(rid, '_prepare_pilot: on every def-use chain from a division '
+             '`requested cores (GPUs) / usable cores (GPUs) per node` to the '
+             "node count handed to the agent (and, by R17.3, to the job) the "
+             'quotient is only rounded up (ceil or an integer idiom of it), '
+             'never floored / truncated / rounded / min-ed; the two kinds are '
+             'combined by max; the count is whole', minimum=4)
+    f = see_through(prog, prog.method(PMGRL[0], PMGRL[1], '_prepare_pilot'))
+    rep.saw(f)
+    g = cfg_of(f)
+    rd = ReachingDefs(g)
+    ev = SymEval(f)
+    smap = I.stmt_node_map(g)
+    nd = node_divisions(f, ev, smap)
+    avar = _sink_var(f, 'cfg')
+    sinks = _stores_to(g, avar, 'nodes')
+    if len(sinks) != 1:
+        raise AnalysisError("UNRECOGNISED-IDIOM %s: %d stores to %s['nodes'] "
+                            '(expected one)' % (f.where, len(sinks), avar))
+    sn, sv = sinks[0]
+    C = Cover(f, g, rd, ev, nd)
+    alts = C.expr(sv, sn.id)
+
+    adj = sorted({k for a in alts for k, s, i in a if s == 'adj'})
+    if adj:
+        raise AnalysisError('UNRECOGNISED-IDIOM %s: the %s-driven node count '
+                            'reaches agent_cfg[\'nodes\'] = `%s` through '
+                            'arithmetic / a selection the rounding analysis '
+                            'does not know' % (f.where, '/'.join(adj),
+                                               short(sv)))
+    examples = {
+        'cores': ('cores=9 on a platform with 8 usable cores per node: 1 node '
+                  'requested, 2 needed'),
+        'gpus': ('cores=1, gpus=9 on a platform with 4 usable GPUs per node: '
+                 '2 nodes (8 GPUs) requested, 3 needed')}
+    # (1) no downward rounding
+    low = sorted({i for a in alts for k, s, i in a if s == 'low'})
+    for k in sorted(nd):
+        mine = [i for i in low if C.sites[i][0] == k]
+        if not mine and any(k in C._dict(a) for a in alts):
+            rep.ok(rid, f, 'the %s-driven node count is never rounded down on '
+                   'its way to the agent / job' % _KIND_TXT[k],
+                   f.loc(nd[k][0]))
+        for i in mine:
+            _, node, reason = C.sites[i]
+            if reason.startswith('mix:'):
+                what = 'divides the requested %s by the usable %s per node' \
+                    % (_KIND_TXT[reason[4:]], _KIND_TXT[k])
+                hist = ('cores=64, gpus=1 on a platform with 16 cores and 4 '
+                        'GPUs per node: the node count does not follow the '
+                        'amount it has to cover')
+            elif reason == 'min':
+                what = 'takes the smaller of the %s-driven node count and ' \
+                    'another figure (min)' % _KIND_TXT[k]
+                hist = ('cores=1000, gpus=1 on a 10-core/1-GPU platform: 1 '
+                        'node requested, 100 needed')
+            elif reason == 'floordiv':
+                what = 'rounds the quotient down (floor division)'
+                hist = examples[k]
+            else:
+                what = 'rounds the quotient with %s(), not up' % reason
+                hist = examples[k]
+            rep.bad(rid, f, 'round-down:%s:%s' % (k, reason),
+                    '_prepare_pilot: `%s` %s, and the result reaches '
+                    "agent_cfg['nodes'] / jd.node_count without an upward "
+                    'rounding: for a %s-bound request which is not a multiple '
+                    'of the usable %s per node the job is (at least) one node '
+                    'short of covering the requested %s'
+                    % (short(node), what, _KIND_TXT[k], _KIND_TXT[k],
+                       _KIND_TXT[k]), f.loc(node), history=hist)
+    # (2) whole nodes
+    frac = sorted({k for a in alts for k, s, i in a if s == 'q'})
+    rep.check(not frac, rid, f, 'the node count is a whole number when it '
+              'reaches the agent / job', construct='fraction:%s'
+              % ','.join(frac),
+              message="_prepare_pilot: the quotient `%s` reaches "
+              "agent_cfg['nodes'] = `%s` (and jd.node_count) on some path "
+              'without being rounded up to whole nodes'
+              % (' / '.join(short(nd[k][0]) for k in frac), short(sv)),
+              loc=f.loc(sn.ast), history='cores=9 on an 8-core platform: '
+              'node_count 1.125')
+    # (3) both kinds are covered by one value
+    both = [a for a in alts if {'cores', 'gpus'} <= set(C._dict(a))]
+    if not both:
+        unseen = sorted(set(nd) - C.visited)
+        if unseen:
+            raise AnalysisError('UNRECOGNISED-IDIOM %s: the %s-driven node '
+                                "count `%s` does not reach agent_cfg['nodes'] "
+                                'by a def-use chain the analysis can follow'
+                                % (f.where, '/'.join(unseen),
+                                   ' / '.join(short(nd[k][0])
+                                              for k in unseen)))
+    rep.check(bool(both), rid, f, 'one definition of the node count covers '
+              'the requested cores and the requested GPUs (max of both)',
+              construct='uncombined',
+              message='_prepare_pilot: no definition of the node count which '
+              "reaches agent_cfg['nodes'] = `%s` combines the core-driven "
+              'count `%s` with the GPU-driven count `%s`: one of them '
+              'replaces the other, the job does not cover both the requested '
+              'cores and the requested GPUs'
+              % (short(sv), short(nd['cores'][0]), short(nd['gpus'][0])),
+              loc=f.loc(nd['gpus'][0]), history='cores=1000, gpus=1 on a '
+              '10-core/1-GPU platform: 1 node requested, 100 needed')
+
+
+# ------------------------------------------------------------------------------
 #
 def run(prog, rep, tier):
     rep.decided = ('every entry of every shipped resource_*.json, under each '
@@ -2238,6 +2860,7 @@ def run(prog, rep, tier):
     r17_2(prog, rep, ctx)
     r17_3(prog, rep)
     r17_4(prog, rep)
+    r17_5(prog, rep)
     if tier == 'thorough':
         # sweep: every factory in the package which selects a class through a
         # dict literal (stagers, tmgr schedulers, ...) has resolvable rows
@@ -2273,6 +2896,29 @@ _CMP  = 'utils/component.py'
 _SES  = 'session.py'
 _RCF  = 'resource_config.py'
 _PML  = 'pmgr/launching/base.py'
+
+# the block of _prepare_pilot which derives the node count from cores / GPUs
+_BLK = ("            if avail_cores_per_node:\n"
+        "                requested_nodes = requested_cores / avail_cores_per_node\n\n"
+        "            if avail_gpus_per_node:\n"
+        "                requested_nodes = max(requested_gpus / avail_gpus_per_node,\n"
+        "                                      requested_nodes)\n\n"
+        "            requested_nodes = math.ceil(requested_nodes)\n")
+
+
+def _two(cpu, gpu, comb='max(nodes_cpu, nodes_gpu)'):
+    """the same block with one whole number per kind"""
+    return ("            nodes_cpu = 0\n            nodes_gpu = 0\n\n"
+            "            if avail_cores_per_node:\n"
+            "                nodes_cpu = %s\n\n"
+            "            if avail_gpus_per_node:\n"
+            "                nodes_gpu = %s\n\n"
+            "            requested_nodes = %s\n" % (cpu, gpu, comb))
+
+
+_CEIL_C = 'math.ceil(requested_cores / avail_cores_per_node)'
+_CEIL_G = 'math.ceil(requested_gpus / avail_gpus_per_node)'
+
 
 MUTATIONS = [
     # ---- resource configs ---------------------------------------------------
@@ -2345,11 +2991,11 @@ MUTATIONS = [
         (_PML, "        jd_dict.node_count            = requested_nodes + backup_nodes", "        jd_dict.node_count            = requested_nodes")]),
     dict(name='R17.3 gpu count recomputed between the two sinks', rules=('R17.3',), edits=[
         (_PML, "        jd_dict.total_gpu_count       = allocated_gpus", "        allocated_gpus = requested_gpus\n        jd_dict.total_gpu_count       = allocated_gpus")]),
-    dict(name='R17.3 node count truncated instead of rounded up', rules=('R17.3',), edits=[
+    dict(name='R17.5 node count truncated instead of rounded up', rules=('R17.5',), edits=[
         (_PML, "            requested_nodes = math.ceil(requested_nodes)", "            requested_nodes = int(requested_nodes)")]),
-    dict(name='R17.3 gpu and core demands combined with min', rules=('R17.3',), edits=[
+    dict(name='R17.5 gpu and core demands combined with min', rules=('R17.5',), edits=[
         (_PML, "                requested_nodes = max(requested_gpus / avail_gpus_per_node,", "                requested_nodes = min(requested_gpus / avail_gpus_per_node,")]),
-    dict(name='R17.3 gpu demand replaces the core demand', rules=('R17.3',), edits=[
+    dict(name='R17.5 gpu demand replaces the core demand', rules=('R17.5',), edits=[
         (_PML, "                requested_nodes = max(requested_gpus / avail_gpus_per_node,\n                                      requested_nodes)", "                requested_nodes = requested_gpus / avail_gpus_per_node")]),
     dict(name='R17.3 SMT not applied to the divisor', rules=('R17.3',), edits=[
         (_PML, "        if cores_per_node and smt:\n            cores_per_node *= smt\n", "")]),
@@ -2378,6 +3024,30 @@ MUTATIONS = [
         (_RMB, "        rm_info.requested_nodes  = self._cfg.nodes", "        rm_info.requested_nodes  = self._cfg.requested_nodes")]),
     dict(name='R17.3 agent takes its core count from the node key', rules=('R17.3',), edits=[
         (_RMB, "        rm_info.requested_cores  = self._cfg.cores\n", "        rm_info.requested_cores  = self._cfg.nodes\n")]),
+    # ---- rounding direction (R17.5) -------------------------------------------
+    dict(name='R17.5 one integer per kind, GPU part floor-divided (seed C17-c)', rules=('R17.5',), edits=[
+        (_PML, _BLK, _two(_CEIL_C, 'requested_gpus // avail_gpus_per_node'))]),
+    dict(name='R17.5 one integer per kind, core part truncated with int()', rules=('R17.5',), edits=[
+        (_PML, _BLK, _two('int(requested_cores / avail_cores_per_node)', _CEIL_G))]),
+    dict(name='R17.5 one integer per kind, both rounded up but combined with min', rules=('R17.5',), edits=[
+        (_PML, _BLK, _two(_CEIL_C, _CEIL_G, 'min(nodes_cpu, nodes_gpu)'))]),
+    dict(name='R17.5 GPU quotient floor-divided inside max()', rules=('R17.5',), edits=[
+        (_PML, "                requested_nodes = max(requested_gpus / avail_gpus_per_node,", "                requested_nodes = max(requested_gpus // avail_gpus_per_node,")]),
+    dict(name='R17.5 node count rounded to the nearest whole number', rules=('R17.5',), edits=[
+        (_PML, "            requested_nodes = math.ceil(requested_nodes)", "            requested_nodes = round(requested_nodes)")]),
+    dict(name='R17.5 rounding up only where the platform has GPUs', rules=('R17.5',), edits=[
+        (_PML, "                requested_nodes = max(requested_gpus / avail_gpus_per_node,\n                                      requested_nodes)\n\n            requested_nodes = math.ceil(requested_nodes)\n",
+               "                requested_nodes = math.ceil(max(requested_gpus / avail_gpus_per_node,\n                                                requested_nodes))\n")]),
+    dict(name='R17.5 GPU-driven count computed from the requested cores', rules=('R17.5',), edits=[
+        (_PML, "                requested_nodes = max(requested_gpus / avail_gpus_per_node,", "                requested_nodes = max(requested_cores / avail_gpus_per_node,")]),
+    dict(name='R17.5 GPU-driven count only used on platforms without usable cores', rules=('R17.5',), edits=[
+        (_PML, _BLK, "            if avail_cores_per_node:\n                requested_nodes = requested_cores / avail_cores_per_node\n\n"
+                     "            elif avail_gpus_per_node:\n                requested_nodes = requested_gpus / avail_gpus_per_node\n\n"
+                     "            requested_nodes = math.ceil(requested_nodes)\n")]),
+    dict(name='R17.5 one integer per kind, hand written selection keeps the smaller count', rules=('R17.5',), edits=[
+        (_PML, _BLK, _two(_CEIL_C, _CEIL_G, 'nodes_cpu\n            if nodes_gpu < requested_nodes:\n                requested_nodes = nodes_gpu'))]),
+    dict(name='R17.5 one integer per kind, GPU part through math.floor', rules=('R17.5',), edits=[
+        (_PML, _BLK, _two(_CEIL_C, 'math.floor(requested_gpus / avail_gpus_per_node)'))]),
 ]
 
 SILENT = [
@@ -2490,4 +3160,33 @@ SILENT = [
         (_PML, "        allocated_cores = (\n            (requested_nodes + backup_nodes) * avail_cores_per_node) \\\n                    or requested_cores\n        allocated_gpus  = (\n            (requested_nodes + backup_nodes) * avail_gpus_per_node)  \\\n                    or requested_gpus\n",
                "        total_nodes     = requested_nodes + backup_nodes\n        allocated_cores = total_nodes * avail_cores_per_node or requested_cores\n        allocated_gpus  = total_nodes * avail_gpus_per_node  or requested_gpus\n"),
         (_PML, "        jd_dict.node_count            = requested_nodes + backup_nodes", "        jd_dict.node_count            = total_nodes")]),
+    # ---- rounding direction (R17.5): rewrites of the node computation --------
+    dict(name='R17.5 one integer per kind, ceil on both, max', edits=[
+        (_PML, _BLK, _two(_CEIL_C, _CEIL_G))]),
+    dict(name='R17.5 one integer per kind, integer ceiling idioms', edits=[
+        (_PML, _BLK, _two('-(-requested_cores // avail_cores_per_node)',
+                          '(requested_gpus + avail_gpus_per_node - 1) // avail_gpus_per_node'))]),
+    dict(name='R17.5 floor plus remainder indicator, (a - 1) // b + 1', edits=[
+        (_PML, _BLK, _two('requested_cores // avail_cores_per_node + (requested_cores % avail_cores_per_node > 0)',
+                          '(requested_gpus - 1) // avail_gpus_per_node + 1'))]),
+    dict(name='R17.5 conditional expressions, hand written max', edits=[
+        (_PML, _BLK, "            nodes_cpu = math.ceil(requested_cores / avail_cores_per_node) \\\n                        if avail_cores_per_node else 0\n"
+                     "            nodes_gpu = int(math.ceil(requested_gpus / avail_gpus_per_node)) \\\n                        if avail_gpus_per_node else 0\n"
+                     "            requested_nodes = nodes_cpu if nodes_cpu >= nodes_gpu else nodes_gpu\n")]),
+    dict(name='R17.5 renamed locals, hoisted quotients, list form of max, ceil at the sink side', edits=[
+        (_PML, _BLK, "            frac = 0\n"
+                     "            if avail_cores_per_node:\n                per_core = requested_cores / avail_cores_per_node\n                frac = per_core\n\n"
+                     "            if avail_gpus_per_node:\n                per_gpu = requested_gpus / avail_gpus_per_node\n                frac = max([frac, per_gpu])\n\n"
+                     "            whole = int(math.ceil(frac))\n            requested_nodes = whole\n")]),
+    dict(name='R17.5 rounding skipped when the count is zero', edits=[
+        (_PML, "            requested_nodes = math.ceil(requested_nodes)\n", "            if requested_nodes:\n                requested_nodes = math.ceil(requested_nodes)\n")]),
+    dict(name='R17.5 core-driven count first into its own local, GPU branch in early-skip form', edits=[
+        (_PML, _BLK, "            by_cores = requested_nodes\n"
+                     "            if avail_cores_per_node:\n                by_cores = requested_cores / avail_cores_per_node\n\n"
+                     "            if not avail_gpus_per_node:\n                requested_nodes = math.ceil(by_cores)\n"
+                     "            else:\n                requested_nodes = math.ceil(max(by_cores,\n                                      requested_gpus / avail_gpus_per_node))\n")]),
+    dict(name='R17.5 hand written max at statement level', edits=[
+        (_PML, _BLK, _two(_CEIL_C, _CEIL_G, 'nodes_cpu\n            if nodes_gpu > requested_nodes:\n                requested_nodes = nodes_gpu'))]),
+    dict(name='R17.5 floor division, one more node if there is a remainder', edits=[
+        (_PML, _BLK, _two(_CEIL_C, 'requested_gpus // avail_gpus_per_node\n                if requested_gpus % avail_gpus_per_node:\n                    nodes_gpu += 1'))]),
 ]
